@@ -171,6 +171,17 @@ fn collect(m: &Module, ty: &Type, v: &Value, path: &str, rebuild: &dyn Fn(Value)
             let i = *i;
             collect(m, &alts[i].ty, x, &format!("{path}.{}", alts[i].name), &|nv| rebuild(Value::Choice(i, Box::new(nv))), out);
         }
+        // "for extensible constraints an out-of-root value is encoded in the extension form and
+        // still round-trips": the items behind the marker, at the boundaries of the
+        // normally-small encoding of their index (X.691 11.6: 63 / 64)
+        (Type::Enumerated { items, root: Some(n_root) }, Value::Enum(_)) => {
+            let n_ext = items.len() - n_root;
+            for k in [0usize, 1, 62, 63, 64, 65, 127, 128, n_ext.saturating_sub(1)] {
+                if k < n_ext {
+                    push(format!("ENUMERATED extension item #{k}"), Expect::AcceptExtension, Value::Enum(n_root + k));
+                }
+            }
+        }
         _ => {}
     }
 }
@@ -335,7 +346,7 @@ fn mutation_json(zoo: &Zoo, ei: usize, valid: &Value, mu: &Mutation) -> J {
            "path": mu.path, "kind": mu.kind, "expect": format!("{:?}", mu.expect), "value_brief": mu.value.brief(), "value": serde_json::to_value(&mu.value).unwrap()})
 }
 
-const RULE: &str = "programs: every definition of the compiled zoo; for a generated valid value (proptest) every reached constrained node is pushed outside its constraint, one node per case: INTEGER lb-1 / ub+1 / far outside (incl. single-value ranges), SIZE lb-1 / 0 / ub+1 / 2ub+1 of BIT STRING, OCTET STRING, character strings and lists, one illegal character at first/middle/last position for Numeric/Printable/Visible/IA5String; plus forged CHOICE/ENUMERATED indices through hand-written descriptor types. Oracle: non-extensible -> write returns Err (Ok or panic is a violation; for Ok the report says what the bits decode to); extensible -> Ok, round trip, and inside the profile bits == X.691 extension form. Non-trivial: the mutated node is reached by the encoder (it is inside a present component); distinct = (type, path, mutation kind, value).";
+const RULE: &str = "programs: every definition of the compiled zoo; for a generated valid value (proptest) every reached constrained node is pushed outside its constraint, one node per case: INTEGER lb-1 / ub+1 / far outside (incl. single-value ranges), SIZE lb-1 / 0 / ub+1 / 2ub+1 of BIT STRING, OCTET STRING, character strings and lists, one illegal character at first/middle/last position for Numeric/Printable/Visible/IA5String, ENUMERATED items behind the marker at the index boundaries 0/1/62..65/127/128/last; plus forged CHOICE/ENUMERATED indices through hand-written descriptor types. Oracle: non-extensible -> write returns Err (Ok or panic is a violation; for Ok the report says what the bits decode to); extensible -> Ok, round trip, and inside the profile bits == X.691 extension form. Non-trivial: the mutated node is reached by the encoder (it is inside a present component); distinct = (type, path, mutation kind, value).";
 
 pub fn run(ctx: Ctx) -> i32 {
     let report = Report::new(ctx.clone(), RULE);
